@@ -29,6 +29,9 @@ struct SealAudit {
     void on_probe(const vsim_probe_t *p);
     // a CBC-protected record this session put on the wire (body = bytes after the record header)
     void on_wire_cbc_record(const void *ssl, const unsigned char *body, size_t n, bool dtls);
+    // a TLS 1.2 AES-GCM record this session put on the wire: the 8-byte explicit nonce leads the body and is the record sequence number
+    void on_wire_gcm12_record(const void *ssl, const unsigned char *body, size_t n);
+    std::map<uintptr_t, std::string> wire_gcm_last;      // per session: explicit nonce of its previous GCM record (reset when the sender changes keys)
     // a protected DTLS record (epoch > 0) this session put on the wire: the explicit epoch/sequence number is bound into its MAC or nonce
     void on_wire_dtls_record(const void *ssl, unsigned epoch, uint64_t seq, const unsigned char *raw, size_t n);
     std::map<std::pair<uintptr_t, std::pair<unsigned, uint64_t> >, uint64_t> dtls_numbers;   // (session, epoch, sequence number) -> digest of the record sent under it
